@@ -100,6 +100,7 @@ func verifHarnessC12ApplyUpdates() {
 		upd, has := updates[wname]
 		if has && upd != nil {
 			assert("watcher-notified-level-trigger", len(w.ready) == 1)
+			reach("end-watched-updated")
 		}
 	}
 	reach("end")
